@@ -61,8 +61,15 @@ def main():
     print("property %s tier %s: %d groups (%d with vacuity pass), repo %s" %
           (pid, a.tier, len(groups), len(reach), driver.REPO), flush=True)
     results = driver.run_groups(groups, jobs=a.jobs, reach_names=reach)
+    extra = None
+    if hasattr(mod, "custom") and not a.only:
+        try:
+            extra = mod.custom(a.tier, results)
+        except Exception as e:       # machinery failure: never a verdict
+            print("UNDECIDED custom part of %s: %r" % (pid, e))
+            return 2
     wall = time.time() - t0
-    return report.conclude(pid, a.tier, seed, mod, results, wall, write_evidence=not a.only)
+    return report.conclude(pid, a.tier, seed, mod, results, wall, write_evidence=not a.only, extra=extra)
 
 
 if __name__ == "__main__":
